@@ -15,15 +15,16 @@ MANIFEST = dict(
          "(rules_equivariant); roads, flat counts, fullness, reserves, side to move and hence the outcome are invariant; the images compose like "
          "the group table and k / inv k undo each other; the code-shaped TransformMove (int8 flips, direction re-derived from the end point) "
          "equals tm on every transformable move (coordinates in [-64,64), type <= 8, slides with >= 1 drop) and panics on the rest; and through "
-         "C01's refinement theorem the bit-level Position.Move commutes with the symmetries (Ok/Err-wise, results abs-equal, never Panic) for any "
-         "two positions satisfying the C01 invariant that show a board and its image. "
+         "C01's refinement theorems the bit-level Position.Move commutes with the symmetries (Ok/Err-wise, results abs-equal, never Panic, the "
+         "invariant pos_ok holds again; exact representation limit: no stack of the successor above 64) and through C02's game_over_correct "
+         "GameOver / WinDetails are equal, for any two positions satisfying the invariants that show a board and its image. "
          "Execution: model of Symmetries / TransformMove composed with the proved move model is compared with the implementation on every image of "
          "every generated (position, move); an independent Go oracle with its own eight coordinate maps checks commutation of move application, "
          "invariance of legality / game over / winner / flat counts, and that Symmetries lists each distinct image exactly once paired with the "
          "transform producing it.",
     ref='5.14', technique='Coq proofs (rules_equivariant, road/outcome invariance, TransformMove = tm, Move equivariance via C01) + '
                           'model/implementation differential + independent symmetry oracle',
-    note="Trusted: Coq kernel, extraction, transcription of symmetry/canonical.go. Partial on the theorem side: move_equivariant is stated for any "
-         "position q with abs q = img k (abs p) rather than for Symmetry.image (abs (image p s) = img k (abs p), i.e. the rebuild through "
-         "from_squares, is not proved), Pass is excluded as in C01; gameover_invariant at the bit level and symmetries_exact are not proved "
-         "(decided by correspondence + oracle).")
+    note="Trusted: Coq kernel, extraction, transcription of symmetry/canonical.go. Partial on the theorem side: move_equivariant and "
+         "gameover_invariant are stated for any position q with abs q = img k (abs p) rather than for Symmetry.image (abs (image p s) = "
+         "img k (abs p), i.e. the rebuild through from_squares - which also recomputes the reserves from the default counts - is not proved), "
+         "Pass is excluded as in C01; symmetries_exact is not proved (decided by correspondence + oracle).")
